@@ -234,12 +234,12 @@ Definition cmtf (shape3 : list nat) (m : nat) (spec : rspec) : res (list (list n
   Ok (cp_shapes shape3 r ++ cp_shapes [hd 0 shape3; m] r)).
 
 (* ------------------------------------------------------------------ loop skeleton: normalisation *)
-(* The three CP drivers share this control flow (after the repair fe25b5c):
-     state <- initialize_cp       (normalised iff normalize_factors and init is not a user CP tensor)
+(* The three CP drivers share this control flow (after the repairs fe25b5c and 3de556b):
+     state <- initialize_cp       (normalised iff normalize_factors, for every kind of initialisation)
      [parafac only: if every mode is fixed: return state]
      for iteration in range(n_iter_max):
          sweep                                   (includes in-sweep normalisations in the nn variants)
-         [parafac only: if callback(...) is True: break]
+         [parafac only: if callback(...) is True: [normalise if requested]; break]
          if tol and iteration >= 1 and <converged>:  [normalise if requested]; break
          [normalise if requested]
      return state
@@ -250,39 +250,40 @@ Section Skeleton.
   Variable St : Type.
   Variables (sweep normalise : St -> St).
   Definition norm_if (nf : bool) (s : St) : St := if nf then normalise s else s.
-  Definition init_state (nf : bool) (ik : init_kind) (s0 : St) : St :=
-    match ik with InitUser => s0 | _ => norm_if nf s0 end.
   Fixpoint cp_loop (nf tol_set : bool) (it fuel : nat) (decisions : list (bool * bool)) (s : St) : St :=
     match fuel with
     | O => s
     | S fuel' =>
         let s1 := sweep s in
         let d := hd (false, false) decisions in
-        if fst d then s1                                              (* `if retVal is True: break` *)
+        if fst d then norm_if nf s1                                   (* `if retVal is True: ...; break` *)
         else if tol_set && (1 <=? it) && snd d then norm_if nf s1     (* convergence exit *)
         else cp_loop nf tol_set (S it) fuel' (tl decisions) (norm_if nf s1)
     end.
+  (* the kind of initialisation does not matter any more; the argument is kept so that the statements quantify over it *)
   Definition cp_run (nf tol_set : bool) (ik : init_kind) (all_fixed : bool) (n_iter_max : nat)
              (decisions : list (bool * bool)) (s0 : St) : St :=
-    let s := init_state nf ik s0 in
+    let s := norm_if nf s0 in
     if all_fixed then s else cp_loop nf tol_set 0 n_iter_max decisions s.
 
-  (* the candidate repair (build/fix_candidates/C08_normalize_every_exit.diff): a user initialisation is
-     normalised like the others, and the callback exit normalises like the convergence exit *)
-  Fixpoint cp_loop_fix (nf tol_set : bool) (it fuel : nat) (decisions : list (bool * bool)) (s : St) : St :=
+  (* the control flow before 3de556b, kept for the regression witnesses: a user initialisation was handed on as it
+     came, and the callback exit did not normalise *)
+  Definition init_state_old (nf : bool) (ik : init_kind) (s0 : St) : St :=
+    match ik with InitUser => s0 | _ => norm_if nf s0 end.
+  Fixpoint cp_loop_old (nf tol_set : bool) (it fuel : nat) (decisions : list (bool * bool)) (s : St) : St :=
     match fuel with
     | O => s
     | S fuel' =>
         let s1 := sweep s in
         let d := hd (false, false) decisions in
-        if fst d then norm_if nf s1
+        if fst d then s1
         else if tol_set && (1 <=? it) && snd d then norm_if nf s1
-        else cp_loop_fix nf tol_set (S it) fuel' (tl decisions) (norm_if nf s1)
+        else cp_loop_old nf tol_set (S it) fuel' (tl decisions) (norm_if nf s1)
     end.
-  Definition cp_run_fix (nf tol_set : bool) (ik : init_kind) (all_fixed : bool) (n_iter_max : nat)
+  Definition cp_run_old (nf tol_set : bool) (ik : init_kind) (all_fixed : bool) (n_iter_max : nat)
              (decisions : list (bool * bool)) (s0 : St) : St :=
-    let s := norm_if nf s0 in
-    if all_fixed then s else cp_loop_fix nf tol_set 0 n_iter_max decisions s.
+    let s := init_state_old nf ik s0 in
+    if all_fixed then s else cp_loop_old nf tol_set 0 n_iter_max decisions s.
 
   (* the control flow before fe25b5c (break BEFORE the end-of-sweep normalisation), kept for the regression witness *)
   Fixpoint cp_loop_pinned (nf tol_set : bool) (it fuel : nat) (decisions : list bool) (s : St) : St :=
